@@ -312,3 +312,64 @@ func isCallTo(fn *ssa.Function) func(ssa.Instruction) bool {
 		return ok && calleeIs(ci.Common(), fn)
 	}
 }
+
+// cfgSearch explores the CFG at instruction granularity starting just after `from`
+// (or at the start of block `startBlock` when from is nil). It does not continue past an
+// instruction satisfying avoid, nor along a CFG edge whose edge facts satisfy blocked.
+// It returns the first instruction satisfying target, i.e. a witness path exists.
+func cfgSearch(fl *Flow, from ssa.Instruction, startBlock *ssa.BasicBlock, target, avoid func(ssa.Instruction) bool, blocked func([]Fact) bool) ssa.Instruction {
+	b := startBlock
+	idx := 0
+	if from != nil {
+		b = from.Block()
+		for i, in := range b.Instrs {
+			if in == from {
+				idx = i + 1
+			}
+		}
+	}
+	seen := map[*ssa.BasicBlock]bool{}
+	var rec func(b *ssa.BasicBlock, start int) ssa.Instruction
+	rec = func(b *ssa.BasicBlock, start int) ssa.Instruction {
+		for i := start; i < len(b.Instrs); i++ {
+			in := b.Instrs[i]
+			if avoid != nil && avoid(in) {
+				return nil
+			}
+			if target(in) {
+				return in
+			}
+		}
+		for _, s := range b.Succs {
+			if blocked != nil && blocked(fl.edgeFacts(b, s)) {
+				continue
+			}
+			if seen[s] {
+				continue
+			}
+			seen[s] = true
+			if r := rec(s, 0); r != nil {
+				return r
+			}
+		}
+		return nil
+	}
+	return rec(b, idx)
+}
+
+// precedes reports that instruction a is executed before b on every path reaching b
+// (same block earlier, or a's block strictly dominates b's block).
+func precedes(a, b ssa.Instruction) bool {
+	if a.Block() == b.Block() {
+		for _, in := range a.Block().Instrs {
+			if in == a {
+				return true
+			}
+			if in == b {
+				return false
+			}
+		}
+		return false
+	}
+	return a.Block().Dominates(b.Block())
+}
